@@ -64,57 +64,11 @@ Lemma sel_add_filters_ok : Gen_C10.sel_add_filters =
   ["filter.NewExcludedFilter(s.checkerName, nil, s.region.GetStoreIds())"; "filter.NewStorageThresholdFilter(s.checkerName)";
    "filter.NewSpecialUseFilter(s.checkerName)"; "&filter.StoreStateFilter{ActionScope: s.checkerName, MoveRegion: true, AllowTemporaryStates: true}"].
 Proof. reflexivity. Qed.
-Lemma sel_add_chain_ok : Gen_C10.sel_add_chain =
-  ["NewCandidates(s.cluster.GetStores())"; "FilterTarget(s.cluster.GetOpts(), filters...)"; "Sort(isolationComparer)"; "Reverse()";
-   "Top(isolationComparer)"; "Sort(filter.RegionScoreComparer(s.cluster.GetOpts()))"; "FilterTarget(s.cluster.GetOpts(), strictStateFilter)"; "PickFirst()"].
-Proof. reflexivity. Qed.
-Lemma skel_add_ok : Gen_C10.skel_SelectStoreToAdd =
-  [IfE "len(s.locationLabels) > 0 && s.isolationLevel != """"" [Call "NewIsolationFilter"] []; Call "IsolationComparer"; Call "NewCandidates";
-   Call "FilterTarget"; Call "Sort"; Call "Reverse"; Call "Top"; Call "Sort"; Call "FilterTarget"; Call "PickFirst"; IfE "target == nil" [Ret] []; Ret].
-Proof. reflexivity. Qed.
 Lemma skel_fix_ok : Gen_C10.skel_SelectStoreToFix = [Call "swapStoreToFirst"; Call "SelectStoreToAdd"; Ret]
   /\ Gen_C10.ret_SelectStoreToFix = ["SelectStoreToAdd(coLocationStores[1:])"].
 Proof. split; reflexivity. Qed.
-Lemma skel_improve_ok : Gen_C10.skel_SelectStoreToImprove =
-  [Call "swapStoreToFirst"; Call "NewLocationImprover"; IfE "len(s.locationLabels) > 0 && s.isolationLevel != """"" [Call "NewIsolationFilter"] [];
-   Call "SelectStoreToAdd"; Ret]
-  /\ Gen_C10.ret_SelectStoreToImprove = ["SelectStoreToAdd(coLocationStores[1:], filters...)"]
-  /\ Gen_C10.sel_improve_filters = ["filter.NewLocationImprover(s.checkerName, s.locationLabels, coLocationStores, s.cluster.GetStore(old))"].
-Proof. repeat split; reflexivity. Qed.
-Lemma sel_remove_ok : Gen_C10.sel_remove_chain =
-  ["NewCandidates(coLocationStores)"; "FilterSource(s.cluster.GetOpts(), &filter.StoreStateFilter{ActionScope: replicaCheckerName, MoveRegion: true})";
-   "Sort(isolationComparer)"; "Top(isolationComparer)"; "Sort(filter.RegionScoreComparer(s.cluster.GetOpts()))"; "Reverse()"; "PickFirst()"].
-Proof. reflexivity. Qed.
 
 (* ---------- the hand-transcribed filters, pinned to their source ---------- *)
-Lemma src_filters_ok :
-  Gen_C10.src_excludedFilter_Target = "{ _, ok := f.targets[store.GetID()] return !ok }"
-  /\ Gen_C10.src_storageThresholdFilter_Target = "{ return !store.IsLowSpace(opt.GetLowSpaceRatio()) }"
-  /\ Gen_C10.src_specialUseFilter_Target = "{ return !f.constraint.MatchStore(store) }"
-  /\ Gen_C10.src_labelConstraintFilter_Target = "{ return placement.MatchLabelConstraints(store, f.constraints) }"
-  /\ Gen_C10.src_isolationFilter_Target = "{ if len(f.constraintSet) <= 0 { return true } for _, constrainList := range f.constraintSet { match := true for idx, constraint := range constrainList { match = store.GetLabelValue(f.locationLabels[idx]) == constraint && match } if len(constrainList) > 0 && match { return false } } return true }"
-  /\ Gen_C10.src_distinctScoreFilter_Target = "{ score := core.DistinctScore(f.labels, f.stores, store) switch f.policy { case locationSafeguard: return score >= f.safeScore case locationImprove: return score > f.safeScore default: return false } }".
-Proof. repeat split; reflexivity. Qed.
-Lemma src_isolation_ctor_ok : Gen_C10.src_NewIsolationFilter =
-  "{ isolationFilter := &isolationFilter{ scope: scope, locationLabels: locationLabels, constraintSet: make([][]string, 0), } // Get which idx this isolationLevel at according to locationLabels var isolationLevelIdx int for level, label := range locationLabels { if label == isolationLevel { isolationLevelIdx = level break } } for _, regionStore := range regionStores { var constraintList []string for i := 0; i <= isolationLevelIdx; i++ { constraintList = append(constraintList, regionStore.GetLabelValue(locationLabels[i])) } isolationFilter.constraintSet = append(isolationFilter.constraintSet, constraintList) } return isolationFilter }".
-Proof. reflexivity. Qed.
-Lemma src_distinct_ctor_ok : Gen_C10.src_newDistinctScoreFilter =
-  "{ newStores := make([]*core.StoreInfo, 0, len(stores)-1) for _, s := range stores { if s.GetID() == source.GetID() { continue } newStores = append(newStores, s) } return &distinctScoreFilter{ scope: scope, labels: labels, stores: newStores, safeScore: core.DistinctScore(labels, newStores, source), policy: policy, srcStore: source.GetID(), } }".
-Proof. reflexivity. Qed.
-Lemma src_special_ctor_ok : Gen_C10.src_NewSpecialUseFilter =
-  "{ var values []string for _, v := range allSpecialUses { if slice.NoneOf(allowUses, func(i int) bool { return allowUses[i] == v }) { values = append(values, v) } } return &specialUseFilter{ scope: scope, constraint: placement.LabelConstraint{Key: SpecialUseKey, Op: ""in"", Values: values}, } }".
-Proof. reflexivity. Qed.
-Lemma src_store_ok :
-  Gen_C10.src_DistinctScore = "{ var score float64 for _, s := range stores { if s.GetID() == other.GetID() { continue } if index := s.CompareLocation(other, labels); index != -1 { score += math.Pow(replicaBaseScore, float64(len(labels)-index-1)) } } return score }"
-  /\ Gen_C10.src_CompareLocation = "{ for i, key := range labels { v1, v2 := s.GetLabelValue(key), other.GetLabelValue(key) if v1 != """" && v2 != """" && !strings.EqualFold(v1, v2) { return i } } return -1 }"
-  /\ Gen_C10.src_GetLabelValue = "{ for _, label := range s.GetLabels() { if strings.EqualFold(label.GetKey(), key) { return label.GetValue() } } return """" }".
-Proof. repeat split; reflexivity. Qed.
-Lemma src_constraints_ok :
-  Gen_C10.src_MatchStore = "{ switch c.Op { case In: label := store.GetLabelValue(c.Key) return label != """" && slice.AnyOf(c.Values, func(i int) bool { return c.Values[i] == label }) case NotIn: label := store.GetLabelValue(c.Key) return label == """" || slice.NoneOf(c.Values, func(i int) bool { return c.Values[i] == label }) case Exists: return store.GetLabelValue(c.Key) != """" case NotExists: return store.GetLabelValue(c.Key) == """" } return false }"
-  /\ Gen_C10.src_MatchLabelConstraints = "{ if store == nil { return false } for _, l := range store.GetLabels() { if isExclusiveLabel(l.GetKey()) && slice.NoneOf(constraints, func(i int) bool { return constraints[i].Key == l.GetKey() }) { return false } } return slice.AllOf(constraints, func(i int) bool { return constraints[i].MatchStore(store) }) }"
-  /\ Gen_C10.src_isExclusiveLabel = "{ return strings.HasPrefix(key, ""$"") || slice.AnyOf(legacyExclusiveLabels, func(i int) bool { return key == legacyExclusiveLabels[i] }) }"
-  /\ Gen_C10.src_RuleFit_IsSatisfied = "{ return len(f.Peers) == f.Rule.Count && len(f.PeersWithDifferentRole) == 0 }".
-Proof. repeat split; reflexivity. Qed.
 
 (* ---------- the replica checker ---------- *)
 Lemma replica_order_ok : Gen_C10.replica_check_order =
@@ -127,57 +81,8 @@ Lemma remove_extra_op_ok : Gen_C10.remove_extra_skip_op = CLe /\ Gen_C10.remove_
 Proof. split; reflexivity. Qed.
 Lemma make_up_op_ok : Gen_C10.make_up_skip_op = CGe /\ Gen_C10.make_up_skip_op_src = "len(region.GetPeers()) >= r.opts.GetMaxReplicas()".
 Proof. split; reflexivity. Qed.
-Lemma skel_replica_ok :
-  Gen_C10.skel_replica_Check =
-    [Call "checkDownPeer"; IfE "op != nil" [Ret] []; Call "checkOfflinePeer"; IfE "op != nil" [Ret] []; Call "checkMakeUpReplica"; IfE "op != nil" [Ret] [];
-     Call "checkRemoveExtraReplica"; IfE "op != nil" [Ret] []; Call "checkLocationReplacement"; IfE "op != nil" [Ret] []; Ret]
-  /\ Gen_C10.skel_replica_checkDownPeer =
-    [Call "IsRemoveDownReplicaEnabled"; IfE "!r.opts.IsRemoveDownReplicaEnabled()" [Ret] []; Call "GetDownPeers"; ForE [IfE "store == nil" [Ret] []; Call "fixPeer"; Ret]; Ret]
-  /\ Gen_C10.skel_replica_checkOfflinePeer =
-    [Call "IsReplaceOfflineReplicaEnabled"; IfE "!r.opts.IsReplaceOfflineReplicaEnabled()" [Ret] []; Call "GetLearners"; IfE "len(region.GetLearners()) != 0" [Ret] [];
-     ForE [IfE "store == nil" [Ret] []; Call "IsUp"; Call "fixPeer"; Ret]; Ret]
-  /\ Gen_C10.skel_replica_checkMakeUpReplica =
-    [Call "IsMakeUpReplicaEnabled"; IfE "!r.opts.IsMakeUpReplicaEnabled()" [Ret] []; IfE "len(region.GetPeers()) >= r.opts.GetMaxReplicas()" [Ret] [];
-     Call "GetRegionStores"; Call "SelectStoreToAdd"; IfE "target == 0" [Ret] []; Call "CreateAddPeerOperator"; IfE "err != nil" [Ret] []; Ret]
-  /\ Gen_C10.skel_replica_checkRemoveExtraReplica =
-    [Call "IsRemoveExtraReplicaEnabled"; IfE "!r.opts.IsRemoveExtraReplicaEnabled()" [Ret] []; IfE "len(region.GetVoters()) <= r.opts.GetMaxReplicas()" [Ret] [];
-     Call "GetRegionStores"; Call "SelectStoreToRemove"; IfE "old == 0" [Ret] []; Call "CreateRemovePeerOperator"; IfE "err != nil" [Ret] []; Ret]
-  /\ Gen_C10.skel_replica_checkLocationReplacement =
-    [Call "IsLocationReplacementEnabled"; IfE "!r.opts.IsLocationReplacementEnabled()" [Ret] []; Call "GetRegionStores"; Call "SelectStoreToRemove";
-     IfE "oldStore == 0" [Ret] []; Call "SelectStoreToImprove"; IfE "newStore == 0" [Ret] []; Call "CreateMovePeerOperator"; IfE "err != nil" [Ret] []; Ret]
-  /\ Gen_C10.skel_replica_fixPeer =
-    [IfE "len(region.GetVoters()) > r.opts.GetMaxReplicas()" [Call "CreateRemovePeerOperator"; IfE "err != nil" [Ret] []; Ret] [];
-     Call "GetRegionStores"; Call "SelectStoreToFix"; IfE "target == 0" [Ret] []; Call "CreateMovePeerOperator"; IfE "err != nil" [Ret] []; Ret].
-Proof. repeat split; reflexivity. Qed.
 
 (* ---------- the rule checker ---------- *)
-Lemma skel_rule_ok :
-  Gen_C10.skel_rule_Check =
-    [Call "FitRegion"; IfE "len(fit.RuleFits) == 0" [Call "fixRange"; Ret] []; Call "fixOrphanPeers"; IfE "err == nil && op != nil" [Ret] [];
-     ForE [Call "fixRulePeer"; IfE "op != nil" [Ret] []]; Ret]
-  /\ Gen_C10.skel_rule_fixRulePeer =
-    [IfE "len(rf.Peers) < rf.Rule.Count" [Call "addRulePeer"; Ret] [];
-     ForE [Call "isDownPeer"; IfE "c.isDownPeer(region, peer)" [Call "replaceUnexpectRulePeer"; Ret] []; Call "isOfflinePeer";
-           IfE "c.isOfflinePeer(peer)" [Call "replaceUnexpectRulePeer"; Ret] []];
-     ForE [Call "fixLooseMatchPeer"; IfE "err != nil" [Ret] []; IfE "op != nil" [Ret] []]; Call "fixBetterLocation"; Ret]
-  /\ Gen_C10.skel_rule_addRulePeer =
-    [Call "getRuleFitStores"; Call "SelectStoreToAdd"; IfE "store == 0" [Ret] []; Call "CreateAddPeerOperator"; IfE "err != nil" [Ret] []; Ret]
-  /\ Gen_C10.skel_rule_fixBetterLocation =
-    [IfE "len(rf.Rule.LocationLabels) == 0 || rf.Rule.Count <= 1" [Ret] []; Call "getRuleFitStores"; Call "SelectStoreToRemove"; IfE "oldStore == 0" [Ret] [];
-     Call "SelectStoreToImprove"; IfE "newStore == 0" [Ret] []; Call "CreateMovePeerOperator"; Ret]
-  /\ Gen_C10.skel_rule_fixOrphanPeers =
-    [IfE "len(fit.OrphanPeers) == 0" [Ret] []; ForE [Call "IsSatisfied"; IfE "!rf.IsSatisfied()" [Ret] []]; Call "CreateRemovePeerOperator"; Ret]
-  /\ Gen_C10.skel_rule_strategy = [Call "NewLabelConstaintFilter"; Ret]
-  (* fixLooseMatchPeer: a region without a leader is given up before the leader is dereferenced *)
-  /\ Gen_C10.skel_rule_fixLooseMatchPeer =
-    [IfE "region.GetLeader() == nil" [Ret] [];
-     IfE "core.IsLearner(peer) && rf.Rule.Role != placement.Learner" [Call "CreatePromoteLearnerOperator"; Ret] [];
-     IfE "region.GetLeader().GetId() != peer.GetId() && rf.Rule.Role == placement.Leader"
-         [Call "allowLeader"; IfE "c.allowLeader(fit, peer)" [Call "CreateTransferLeaderOperator"; Ret] []; Ret] [];
-     IfE "region.GetLeader().GetId() == peer.GetId() && rf.Rule.Role == placement.Follower"
-         [ForE [Call "allowLeader"; IfE "c.allowLeader(fit, p)" [Call "CreateTransferLeaderOperator"; Ret] []]; Ret] [];
-     Ret].
-Proof. repeat split; reflexivity. Qed.
 
 (* ---------- the builder requests behind the three operator kinds ---------- *)
 Lemma chains_ok :
@@ -190,6 +95,3 @@ Proof. repeat split; reflexivity. Qed.
 
 (* ---------- CheckerController.CheckRegion: joint-state checker first; rule checker, or learner checker then replica
    checker; each behind the replica schedule limit; merge checker last ---------- *)
-Lemma skel_CheckRegion_ok : Gen_C10.skel_CheckRegion =
-  [Call "Check"; IfE "op != nil" [Ret] []; Call "IsPlacementRulesEnabled"; IfE "c.opts.IsPlacementRulesEnabled()" [Call "Check"; IfE "op != nil" [Call "OperatorCount"; Call "GetReplicaScheduleLimit"; IfE "opController.OperatorCount(operator.OpReplica) < c.opts.GetReplicaScheduleLimit()" [Ret] []] []] [Call "Check"; IfE "op != nil" [Ret] []; Call "Check"; IfE "op != nil" [Call "OperatorCount"; Call "GetReplicaScheduleLimit"; IfE "opController.OperatorCount(operator.OpReplica) < c.opts.GetReplicaScheduleLimit()" [Ret] []] []]; IfE "c.mergeChecker != nil" [Call "OperatorCount"; Call "GetMergeScheduleLimit"; IfE "!allowed" [] [Call "Check"; IfE "ops != nil" [Ret] []]] []; Ret].
-Proof. reflexivity. Qed.
